@@ -4,6 +4,7 @@ import (
 	"context"
 	"encoding/json"
 	"fmt"
+	"io"
 	"math"
 	"strconv"
 	"strings"
@@ -522,6 +523,9 @@ func genTables(r *RNG, o histOpts) []*hTable {
 				nc = o.maxCols
 			}
 		}
+		if o.maxCols >= 4 && r.Chance(1, 10) {
+			nc = r.Range(41, 75) // a wide table: its NULL / presence bitmaps take 6..10 bytes, more than a short row image
+		}
 		t := &hTable{id: uint64(100 + i*7), db: "db" + randName(r, r.Intn(5)), name: "t" + strconv.Itoa(i) + "-" + randName(r, r.Intn(6))}
 		if r.Chance(1, 5) {
 			t.id = uint64(r.U64() & 0xffffffff) // fits both id widths
@@ -557,11 +561,20 @@ func genRows(r *RNG, h *hist, o histOpts, ti int, ts uint32, announce bool) *hRo
 	t := h.tables[ti]
 	kind := []string{"w", "u", "d"}[r.Intn(3)]
 	nc := len(t.cols)
+	minimal := r.Chance(1, 5) // binlog_row_image=MINIMAL: the key alone (before), the one or two changed columns (after)
 	mk := func() []bool {
 		p := make([]bool, nc)
 		full := r.Chance(1, 2)
 		for i := range p {
 			p[i] = full || r.Chance(2, 3)
+		}
+		if minimal {
+			for i := range p {
+				p[i] = false
+			}
+			for k := r.Range(1, 2); k > 0; k-- {
+				p[r.Intn(nc)] = true
+			}
 		}
 		return p
 	}
@@ -876,7 +889,9 @@ func (m *tblMapper) MysqlTable(name gobinlog.MysqlTableName) (gobinlog.MysqlTabl
 	for i, t := range m.tables {
 		if t.db == name.DbName && t.name == name.TableName {
 			if m.mode == fmt.Sprintf("err@%d", i) {
-				return nil, fmt.Errorf("mapper failure (injected)")
+				// whatever error VALUE the mapper returns - also one that means "cancelled" or "end of stream" elsewhere
+				// (the mapper's own query context, its own connection) - it is a table-lookup failure of this attempt
+				return nil, mapperErrs[(i+len(m.calls)+len(name.TableName))%len(mapperErrs)]
 			}
 			info := &hInfo{name: name}
 			for _, c := range t.cols {
@@ -893,6 +908,9 @@ func (m *tblMapper) MysqlTable(name gobinlog.MysqlTableName) (gobinlog.MysqlTabl
 	}
 	return nil, fmt.Errorf("unknown table %v", name)
 }
+
+var mapperErrs = []error{fmt.Errorf("mapper failure (injected)"), context.Canceled, context.DeadlineExceeded, io.EOF, io.ErrUnexpectedEOF,
+	fmt.Errorf("wrapped: %w", context.Canceled)}
 
 func showCol(c *gobinlog.ColumnData) string {
 	v := "V" + hx(c.Data)
